@@ -556,6 +556,13 @@ class MultiVector:
 
             data = new_data
 
+        else:
+            # Zero coefficients are not stored (as in the results of all
+            # operations), so that equality, hashing and truth-testing agree
+            # with coefficient-wise comparison.
+            data = {bits: coeff for bits, coeff in data.items()
+                    if not is_zero(coeff)}
+
         # }}}
 
         # assert that multivectors don't get nested
